@@ -29,12 +29,22 @@ def new_delete_rule(prog, res):
             nnew += 1
             # where is the result stored?
             key = None
-            for p in f.ancestors(n['id']):
+            for ini in f.rec.get('inits', []):
+                if ini.get('field') and ini.get('written') and n['id'] in f.descendants(ini['expr']):
+                    fl = [x for x in prog.classes.get(f.cls, {}).get('fields', []) if x['name'] == ini['field']]
+                    if fl and re.match(r'^std::(unique_ptr|shared_ptr)<', fl[0]['type']):
+                        key = ('smart', f.usr, ini['field'], fl[0]['type'])
+                    else:
+                        key = ('field', f.cls, (ini['field'],))
+            for p in (f.ancestors(n['id']) if key is None else []):
                 pn = f.nodes[p]
                 if pn['k'] == 'DeclStmt':
                     for d in pn['decls']:
                         if d.get('init') is not None and n['id'] in f.descendants(d['init']):
-                            key = ('local', f.usr, d['id'], d['name'])
+                            if re.match(r'^(const )?std::(unique_ptr|shared_ptr)<', d.get('type', '')):
+                                key = ('smart', f.usr, d['name'], d['type'])
+                            else:
+                                key = ('local', f.usr, d['id'], d['name'])
                     break
                 if pn['k'] == 'BinaryOperator' and pn['op'] == '=':
                     kind, path = root_of(f, pn['ch'][0])
@@ -101,6 +111,22 @@ def new_delete_rule(prog, res):
     for key, srcs in news.items():
         if key is not None and key[0] == 'returned':
             continue   # an allocation wrapper: judged where its result is stored
+        if key is not None and key[0] == 'smart':
+            # owned by a smart pointer: released by its destructor; the array form must match the deleter
+            g_ = prog.funcs[key[1]]
+            arr_t = re.search(r'<[^<>]*\[\]', key[3]) is not None
+            for _, nid, arr in srcs:
+                if key[3].startswith('std::unique_ptr') or key[3].startswith('const std::unique_ptr'):
+                    if bool(arr) != arr_t:
+                        res.viol('new-delete', 'smart pointer %s' % key[2], g_.loc(nid), 'allocated with new%s but owned by %s, whose deleter uses delete%s' %
+                                 ('[]' if arr else '', key[3], '[]' if arr_t else ''), function=g_.sig, expr='smart:' + key[2])
+                    else:
+                        res.ok('new-delete', 'smart pointer %s' % key[2], g_.loc(nid), 'released by %s' % key[3], function=g_.sig, expr='smart:%s@%d' % (key[2], nid), nontrivial=False)
+                elif arr:
+                    res.viol('new-delete', 'smart pointer %s' % key[2], g_.loc(nid), 'array allocation owned by %s, which releases with delete' % key[3], function=g_.sig, expr='smart:' + key[2])
+                else:
+                    res.ok('new-delete', 'smart pointer %s' % key[2], g_.loc(nid), 'released by %s' % key[3], function=g_.sig, expr='smart:%s@%d' % (key[2], nid), nontrivial=False)
+            continue
         if key is None:
             for f, nid, arr in srcs:
                 res.undecided('new-delete', 'new expression', f.loc(nid), 'result of new is not stored to a resolvable path', function=f.sig, expr='new')
@@ -124,7 +150,7 @@ def new_delete_rule(prog, res):
                 else:
                     res.ok('new-delete', 'local %s released on every normal path' % key[3], f.loc(nid), function=f.sig, expr='leak:' + key[3])
     res.minimum('new expressions', nnew, 8)
-    res.minimum('delete expressions', ndel, 4)
+    res.minimum('delete expressions', ndel, 1)
 
 
 def buffer_contract_rule(prog, res):
@@ -183,7 +209,12 @@ def buffer_contract_rule(prog, res):
                 # the buffer argument: local pointer initialised by new char[X], or member allocated in ctors
                 ba = g.nodes[g.strip(args[k], 'all')]
                 alloc = []
-                if ba['k'] == 'DeclRefExpr' and ba['decl'].get('dk') == 'local':
+                required = _c18.const_subst(prog, g.cls, required)
+                if ba['k'] == 'CXXMemberCallExpr' and ba['callee']['name'] == 'get':
+                    an_ = _c18.as_new(g, ba['id'])
+                    if an_ and an_['array'] and an_['size'] is not None:
+                        alloc.append((g, an_['size']))
+                elif ba['k'] == 'DeclRefExpr' and ba['decl'].get('dk') == 'local':
                     init = local_init(g, ba['decl']['id'])
                     if init is not None:
                         an_ = _c18.as_new(g, init)
@@ -210,6 +241,7 @@ def buffer_contract_rule(prog, res):
                     if ap is None:
                         bad = 'buffer member is assigned from something that is not new char[n]'
                         break
+                    ap = _c18.const_subst(prog, h.cls, ap)
                     d = P.diff_const(ap, required)
                     if d is None or d < 0:
                         bad = 'buffer of %s bytes, callee writes %s bytes' % (P.show(ap), P.show(required))
